@@ -75,7 +75,7 @@ def replay(path):
             from . import e3a
 
             ap = det["aprog"]
-            q = e3a.AProg("replay", det["ref_body"], det["mac_body"], ap["gates"], [tuple(x) for x in ap["gate_of"]], ap["depths"], rows=[ex["row"] or [0]], spurious=ap["spurious"], maxd=ap["maxd"])
+            q = e3a.AProg("replay-%s" % (det.get("program") or ""), det["ref_body"], det["mac_body"], ap["gates"], [tuple(x) for x in ap["gate_of"]], ap["depths"], rows=[ex["row"] or [0]], spurious=ap["spurious"], maxd=ap["maxd"])
             exe, cv = e3a.build("replay", {"replay": [q]})
             for k in (1, 2):
                 res = e3a.run_set(exe, "replay", [q] if not cv else [], shards=1)
